@@ -917,6 +917,9 @@ func (c *Compiler) linkRecursiveCode(ctx *compileContext) {
 		// OpRecursiveEnd must set before call TotalLength
 		code.End.Next = lastCode
 
+		// OpInterface reads its frame size from Length, like in the top-level programs
+		setTotalLengthToInterfaceOp(code)
+
 		totalLength := code.TotalLength()
 
 		// Idx, ElemIdx, Length must set after call TotalLength
